@@ -25,7 +25,7 @@ run_demo() { # $1 = label
   if [ -n "$demo_go" ]; then
     [ -n "$demodir" ] || { say "demo: Go test but no package dir given"; return 2; }
     cp "$demo_go" "$wt/$demodir/"
-    ( cd "$wt" && timeout 900 go test -vet=off -count=1 -run 'Demo|demo|ZZ|Zz|C[0-9][0-9]' "./$demodir" ) > "$cand/demo.$1.out" 2>&1
+    ( cd "$wt" && timeout 900 go test -tags verif -vet=off -count=1 -run 'Demo|demo|ZZ|Zz|C[0-9][0-9]' "./$demodir" ) > "$cand/demo.$1.out" 2>&1
     rc=$?
     rm -f "$wt/$demodir/$(basename "$demo_go")"
     return $rc
@@ -48,7 +48,8 @@ run_demo with; rc1=$?
 say "demo with patch: rc=$rc1"
 # 2. pinned suite
 out=$(mktemp /tmp/vs-$id.XXXX.json)
-( cd "$wt" && go test -mod=mod -json -vet=off -count=1 -timeout 25m ./... ) > "$out" 2>/dev/null
+# one pinned-suite run at a time on this machine: src/cache's tests listen on a fixed port
+( flock 9; cd "$wt" && go test -mod=mod -json -vet=off -count=1 -timeout 25m ./... ) 9>/tmp/vs-gotest.lock > "$out" 2>/dev/null
 missing=$(python3 - "$out" <<'PY'
 import json,sys
 passed=set()
@@ -75,14 +76,30 @@ done
 ok=1
 [ "$rc0" = 0 ] && [ "$rc1" != 0 ] && [ -z "$missing" ] || ok=0
 # a single flaky pinned test under load is re-run once on its own before rejecting
-if [ "$ok" = 0 ] && [ "$rc0" = 0 ] && [ "$rc1" != 0 ] && [ -n "$missing" ] && [ "$(echo $missing | wc -w)" -le 2 ]; then
-  still=""
-  for t in $missing; do
-    pkg=${t%%::*}; name=${t##*::}; rel=${pkg#github.com/thought-machine/please/}
-    ( cd "$wt" && go test -vet=off -count=1 -run "^${name%%/*}\$" "./$rel" ) >> "$log" 2>&1 || still="$still $t"
-  done
-  say "re-run of missing pinned tests alone: still failing:${still:- none}"
-  [ -z "$still" ] && ok=1
+# pinned tests that fail under load (timing tests, port clashes) are re-run per package, alone, before rejecting
+if [ "$ok" = 0 ] && [ "$rc0" = 0 ] && [ "$rc1" != 0 ] && [ -n "$missing" ]; then
+  pkgs=$(for t in $missing; do echo "${t%%::*}"; done | sort -u)
+  if [ "$(echo "$pkgs" | wc -l)" -le 3 ]; then
+    out2=$(mktemp /tmp/vs-$id.XXXX.json)
+    for pkg in $pkgs; do
+      rel=${pkg#github.com/thought-machine/please/}
+      ( flock 9; cd "$wt" && go test -mod=mod -json -vet=off -count=1 "./$rel" ) 9>/tmp/vs-gotest.lock >> "$out2" 2>/dev/null
+    done
+    still=$(python3 - "$out2" $missing <<'PY'
+import json,sys
+passed=set()
+for line in open(sys.argv[1]):
+    try: e=json.loads(line)
+    except Exception: continue
+    if e.get('Action')=='pass' and e.get('Test'): passed.add(e['Package']+'::'+e['Test'])
+print(' '.join(t for t in sys.argv[2:] if t not in passed))
+PY
+)
+    rm -f "$out2"
+    git -C "$wt" checkout -- src/plzinit/BUILD 2>/dev/null
+    say "re-run of the affected packages alone: still failing: ${still:-none}"
+    [ -z "$still" ] && ok=1
+  fi
 fi
 if [ "$ok" = 1 ]; then
   say "RESULT $id: VALID (demo passes without, fails with; pinned suite passes); caught by:${caught:- NONE}"
